@@ -87,7 +87,7 @@ func hashOf(parts ...interface{}) string {
 		default:
 			b, err := json.Marshal(v)
 			if err != nil {
-				vk.Fatalf("digest: %v", err)
+				hfail("digest: %v", err)
 			}
 			h.Write(b)
 		}
@@ -134,15 +134,15 @@ func (t *template) clone() *minichain.Chain {
 	}
 	dir, err := minichain.NewWalDir(scratchRoot())
 	if err != nil {
-		vk.Fatalf("wal dir: %v", err)
+		hfail("wal dir: %v", err)
 	}
 	dirs = append(dirs, dir)
 	if err := minichain.PutWal(dir, t.c.WalBytes()); err != nil {
-		vk.Fatalf("wal: %v", err)
+		hfail("wal: %v", err)
 	}
 	c, err := t.c.RestartOnCopies(dbs, dir)
 	if err != nil {
-		vk.Fatalf("replica start-up on a copy of the %s template: %v", modeName(t.trie), err)
+		hfail("replica start-up on a copy of the %s template: %v", modeName(t.trie), err)
 	}
 	return c
 }
@@ -165,21 +165,21 @@ func getPrior(st int) *prior {
 	for m, trie := range []bool{false, true} {
 		c, err := minichain.New(minichain.Options{IsTrie: trie, Alloc: alloc(), WalRoot: scratchRoot()})
 		if err != nil {
-			vk.Fatalf("template: %v", err)
+			hfail("template: %v", err)
 		}
 		c.Track(txkit.D.Addr, types.MultiSignNonceAddr)
 		if st == 1 {
 			if _, err := c.Step(mixedBlock(c)); err != nil {
-				vk.Fatalf("template: mixed block (%s): %v", modeName(trie), err)
+				hfail("template: mixed block (%s): %v", modeName(trie), err)
 			}
 			rs := c.Receipts(1)
 			for i := 0; i < 8; i++ {
 				if rs[i].Status != types.ReceiptStatusSuccessful {
-					vk.Fatalf("template: transaction %d of the mixed block failed (%s)", i, modeName(trie))
+					hfail("template: transaction %d of the mixed block failed (%s)", i, modeName(trie))
 				}
 			}
 			if !bytes.Equal(c.Code(storeAddr), txkit.StoreRuntime) || c.TokenBalance(txkit.A.Addr, issuerAddr).Cmp(txkit.LKC(500)) != 0 {
-				vk.Fatalf("template: contracts of the mixed block are not in place")
+				hfail("template: contracts of the mixed block are not in place")
 			}
 		}
 		t := &template{trie: trie, c: c}
@@ -195,14 +195,14 @@ func getPrior(st int) *prior {
 	p.led.Sync(flat)
 	p.spendW0, p.spendW1 = p.led.Spendable(txkit.W0), p.led.Spendable(txkit.W1)
 	if st == 1 && (len(p.spendW0) != 2 || len(p.spendW1) != 1) {
-		vk.Fatalf("template: ledger scan found %d/%d outputs", len(p.spendW0), len(p.spendW1))
+		hfail("template: ledger scan found %d/%d outputs", len(p.spendW0), len(p.spendW1))
 	}
 	for _, t := range p.tmpl {
 		// the other proposal for the next height, made by a dedicated proposer replica
 		px := t.clone()
 		x, _, err := px.MakeBlock(types.Txs{txkit.Transfer(txkit.C, p.nonce[txkit.C.Addr], txkit.B.Addr, txkit.LKC(1))})
 		if err != nil {
-			vk.Fatalf("template: other proposal: %v", err)
+			hfail("template: other proposal: %v", err)
 		}
 		px.Close()
 		t.x = x
@@ -258,7 +258,7 @@ func observe(c *minichain.Chain, b *types.Block) obs {
 	h := c.Height()
 	stored, err := c.TxsResult(h)
 	if err != nil || stored == nil {
-		vk.Fatalf("observe: no stored TxsResult at height %d: %v", h, err)
+		hfail("observe: no stored TxsResult at height %d: %v", h, err)
 	}
 	mem := c.LastTxsResult()
 	blk := c.LoadBlock(h)
@@ -292,7 +292,7 @@ func observe(c *minichain.Chain, b *types.Block) obs {
 	for _, r := range rs {
 		bz, err := json.Marshal(r)
 		if err != nil {
-			vk.Fatalf("observe: receipt: %v", err)
+			hfail("observe: receipt: %v", err)
 		}
 		rj = append(rj, string(bz))
 		nlogs += len(r.Logs)
@@ -349,6 +349,7 @@ type caseResult struct {
 	AdmissibleNotExecutable bool           `json:"admissible_not_executable"`
 	Kinds                   map[string]int `json:"kinds"`
 	Ms                      int64          `json:"ms"`
+	Harness                 string         `json:"harness"` // harness error inside the case (not a verdict)
 }
 
 type replica struct {
@@ -365,6 +366,15 @@ func (r *caseResult) viol(key, format string, a ...interface{}) {
 		}
 	}
 	r.Viol = append(r.Viol, violRec{key, fmt.Sprintf(format, a...)})
+}
+
+// catch is vk.Catch that lets harness errors through.
+func catch(f func()) (bool, interface{}) {
+	pan, pv := vk.Catch(f)
+	if he, ok := pv.(harnessError); ok {
+		panic(he)
+	}
+	return pan, pv
 }
 
 func wireCopies(txs types.Txs) types.Txs {
@@ -410,13 +420,13 @@ func twinOf(p *prior, tx types.Tx) types.Tx {
 			tw = types.NewTransaction(t.Nonce(), *t.To(), t.Value(), t.Gas(), t.GasPrice(), t.Data())
 		}
 		if err := tw.Sign(types.GlobalSTDSigner, signer.Key); err != nil {
-			vk.Fatalf("twin: %v", err)
+			hfail("twin: %v", err)
 		}
 		return tw
 	case *types.TokenTransaction:
 		tw := types.NewTokenTransaction(t.TokenAddress(), t.Nonce(), *t.To(), t.Value(), t.Gas(), t.GasPrice(), t.Data())
 		if err := tw.Sign(types.GlobalSTDSigner, signer.Key); err != nil {
-			vk.Fatalf("twin: %v", err)
+			hfail("twin: %v", err)
 		}
 		return tw
 	}
@@ -449,7 +459,26 @@ func checkSenders(res *caseResult, dim string, rb *types.Block, truth []common.A
 	return stored
 }
 
+// harnessError is a harness problem found inside a worker case: it travels to the parent in the case result (a worker
+// that exits inside a case would be indistinguishable from a crash of the code under test) and ends the check with exit 2.
+type harnessError string
+
+func hfail(format string, a ...interface{}) { panic(harnessError(fmt.Sprintf(format, a...))) }
+
 func runBlockCase(bc blockCase) (res caseResult) {
+	defer func() {
+		if e := recover(); e != nil {
+			he, ok := e.(harnessError)
+			if !ok {
+				panic(e)
+			}
+			res = caseResult{Name: bc.name(), State: bc.st, Letters: bc.letters, Dup: bc.dup, Harness: string(he)}
+		}
+	}()
+	return runBlockCase1(bc)
+}
+
+func runBlockCase1(bc blockCase) (res caseResult) {
 	t0 := time.Now()
 	res = caseResult{Name: bc.name(), State: bc.st, Letters: bc.letters, Dup: bc.dup, Kinds: map[string]int{}}
 	p := getPrior(bc.st)
@@ -467,7 +496,7 @@ func runBlockCase(bc blockCase) (res caseResult) {
 	for _, l := range bc.letters {
 		tx, err := ls[l].build(x)
 		if err != nil {
-			vk.Fatalf("case %s: letter %q cannot be built: %v", bc.name(), ls[l].name, err)
+			hfail("case %s: letter %q cannot be built: %v", bc.name(), ls[l].name, err)
 		}
 		base = append(base, tx)
 		res.Kinds[tx.TypeName()]++
@@ -515,10 +544,10 @@ func runBlockCase(bc blockCase) (res caseResult) {
 		P := add("path:proposer")
 		b, parts, err := P.c.MakeBlock(wireCopies(base))
 		res.Executions++
-		honest := admissible
+		honest, executable := admissible, err == nil
 		if err != nil {
 			if !errors.Is(err, minichain.ErrPreRun) {
-				vk.Fatalf("case %s: MakeBlock: %v", bc.name(), err)
+				hfail("case %s: MakeBlock: %v", bc.name(), err)
 			}
 			// not executable on the proposer: the proposal a dishonest proposer would send; everybody must refuse it
 			honest = false
@@ -527,25 +556,25 @@ func runBlockCase(bc blockCase) (res caseResult) {
 			}
 			b, parts, err = P.c.Propose(wireCopies(base), false, 0, minichain.BlockOpts{SkipPreRun: true})
 			if err != nil {
-				vk.Fatalf("case %s: Propose(SkipPreRun): %v", bc.name(), err)
+				hfail("case %s: Propose(SkipPreRun): %v", bc.name(), err)
 			}
 		}
 		proposed[m] = b
 		decode := func() (*types.Block, *types.PartSet) {
 			rp, err := minichain.CopyParts(parts)
 			if err != nil {
-				vk.Fatalf("copy parts: %v", err)
+				hfail("copy parts: %v", err)
 			}
 			rb, err := minichain.BlockFromParts(rp, P.c.Status().ConsensusParams.BlockSize.MaxBytes)
 			if err != nil {
-				vk.Fatalf("decode block: %v", err)
+				hfail("decode block: %v", err)
 			}
 			return rb, rp
 		}
 		// check runs CheckBlock (panics are observations) and, when accepted, Commit
 		finish := func(r *replica, rb *types.Block, rp *types.PartSet, pre func(), mid func()) {
 			var ok bool
-			if pan, pv := vk.Catch(func() {
+			if pan, pv := catch(func() {
 				if pre != nil {
 					pre()
 				}
@@ -556,9 +585,8 @@ func runBlockCase(bc blockCase) (res caseResult) {
 				r.o = obs{err: "panic"}
 				return
 			}
-			if ok {
-				checkSenders(&res, r.dim, rb, truth, truthOK)
-			}
+			// accepted or not: whatever sender the pre-check stored must be the transaction's own signer
+			checkSenders(&res, r.dim, rb, truth, truthOK)
 			if !ok {
 				r.o = obs{err: "CheckBlock=false"}
 				return
@@ -598,7 +626,7 @@ func runBlockCase(bc blockCase) (res caseResult) {
 			fb = P.c.LoadBlock(P.c.Height())
 			seen = P.c.BlockStore().LoadSeenCommit(P.c.Height())
 		}
-		if pan, pv := vk.Catch(func() {
+		if pan, pv := catch(func() {
 			err := F.c.CommitFastSync(fb, seen)
 			res.Executions++
 			switch {
@@ -641,7 +669,7 @@ func runBlockCase(bc blockCase) (res caseResult) {
 			for _, tx := range base {
 				if tw := twinOf(p, tx); tw != nil {
 					if tw.Hash() == tx.Hash() {
-						vk.Fatalf("twin has the hash of the original")
+						hfail("twin has the hash of the original")
 					}
 					TW.c.Mempool().AddTx("", tw)
 					if cacheHas(TW.c, tw.Hash()) && m == 0 {
@@ -662,8 +690,8 @@ func runBlockCase(bc blockCase) (res caseResult) {
 			}
 			compare(&res, V, r, r.dim, mode)
 		}
-		// ---- sub-check 2a on this mode ----
-		if V.o.accepted {
+		// ---- sub-check 2a on this mode (every block the proposer could execute) ----
+		if executable {
 			O := add("order-recorder")
 			orderCheck(&res, O.c, t.trie, b, V)
 		}
